@@ -147,6 +147,20 @@ theorem repack_total (bs : Bytes) (d : Nat) (hd : budget bs ≤ d) (p : Frame)
     (h : parseEthernet Cfg.current d bs = .ok p) (hf : p.packModelled = true) : ∃ out, packF none p = .ok out :=
   repack_total_with Fix.full Var.all bs d hd p h hf
 
+/-- **… also where the interpreter ran out of stack in the middle of a label stack.**  An MPLS label stack is parsed by one nested
+constructor per entry, outside the nesting guard; with fewer activations than the stack has entries (any `d ≥ 35`, not only
+`budget bs ≤ d`) the innermost constructor raises `RecursionError`, the bare `except` of mpls.parse keeps the rest of the stack as
+bytes — and what was built is still inside the pack model and re-serialises.  (These are the histories the long-frame families of
+the harness compare: `d` = the number of layers the implementation got to.)  What the model does NOT bound is pack()'s own
+recursion — one interpreter frame per layer — which is safe in the code only because a chain built by nested constructors is never
+longer than the stack that built it; that is checked by the oracle on the real classes (seeded change C15-K). -/
+theorem repack_total_cutoff (bs : Bytes) (d : Nat) (hd : 35 ≤ d) (p : Frame)
+    (h : parseEthernet Cfg.current d bs = .ok p) (hf : p.packModelled = true) : ∃ out, packF none p = .ok out := by
+  rcases parseD_guarded (fx := Fix.full) (vr := Var.all) rfl d 0 .eth bs (by simpa [need, nestCap] using hd) with ⟨f, hf', _, hg⟩ | ⟨s, hs, _⟩
+  · have : f = p := by rw [parseEthernet, Cfg.current, hf'] at h; injection h
+    subst this; exact packTop2 f hg hf
+  · rw [parseEthernet, Cfg.current, hs] at h; cases h
+
 /-- **The TCP option loop never runs out of model fuel**: the `.fail` that `tcpParse` reads as "parse_options raised, caught by
 `except Exception`" is never the model's fuel-0 branch — with the `off·4` rounds it is given from offset 20 the result equals that
 of any larger number of rounds. -/
@@ -372,6 +386,17 @@ example : classesOf (Cfg.tree Fix.all Var.none) g_eap_req_id = ["ethernet", "eap
 /-- pack() of chains with phase-2 classes of the pack model gives the frame back -/
 example : (parseEthernet Cfg.current 35 g_mpls3).toOption.map (fun p => (p.packModelled, (packF none p).toOption == some g_mpls3)) = some (true, true) ∧
     (parseEthernet Cfg.current 35 g_eap_req_id).toOption.map (fun p => (p.packModelled, (packF none p).toOption == some g_eap_req_id)) = some (true, true) := by
+  decide +kernel
+
+/-- Ethernet + 40 label stack entries, none the bottom of the stack -/
+def g_mpls40 : Bytes :=
+  [0x66, 0x77, 0x88, 0x99, 0xaa, 0xbb, 0x02, 0xa1, 0xb2, 0xc3, 0xd4, 0xe5, 0x88, 0x47] ++ (List.replicate 40 [0x00, 0x01, 0x00, 0x40]).flatten
+/-- `repack_total_cutoff` is not vacuous: with 35 activations the chain is ethernet + 34 entries + the other 6 kept as bytes, with 60
+all 40 entries (and an empty remainder); both are inside the pack model and pack() gives the frame back -/
+example : (parseEthernet Cfg.current 35 g_mpls40).toOption.map
+      (fun p => (p.classes.length, p.classes.getLast?, p.packModelled, (packF none p).toOption == some g_mpls40)) = some (36, some "bytes", true, true) ∧
+    (parseEthernet Cfg.current 60 g_mpls40).toOption.map
+      (fun p => (p.classes.length, p.classes.getLast?, p.packModelled, (packF none p).toOption == some g_mpls40)) = some (42, some "bytes", true, true) := by
   decide +kernel
 
 end Pox.C15
